@@ -449,6 +449,46 @@ def judge_mixed_order_key(ctx, rng, j):
                       f'native={a!r}'[:60], f'nonnative={b!r}'[:60])
 
 
+def judge_mutated_script(ctx, rng, j):
+    """a Script is a mutable object with public fields: one that was
+    already committed to and then given other byte code commits, from then
+    on, to what it holds NOW"""
+    functions, parsing, tools, _, _ = env.mods()
+    seed = rbytes(rng, 32)
+    P = sigmsg.pubkey(seed)
+    (s1, _), (s2, v2) = committed_script(rng), committed_script(rng)
+    if s1 == s2:
+        s2 = O('TRUE') + O('POP0') + s2
+    obj = tools.Script('first', s1)
+    ctx.evaluated()
+    try:
+        tools.make_taproot_lock(P, obj)
+        obj.commitment()
+        obj.src, obj.bytes = 'second', s2
+        lock = bytes(tools.make_taproot_lock(P, obj))
+        w = bytes(tools.make_taproot_witness_scriptspend(P, obj))
+    except BaseException as e:
+        ctx.violation('builder-raised:mutated-script', repr(e)[:120],
+                      {'kind': 'mutated', 'seed': seed, 's1': s1, 's2': s2})
+        return
+    case = dict(seed=seed, script=s2, fields={}, allowed=0, lock=lock,
+                kind='scriptspend', witness=w)
+    if taproot.parse_lock(lock) is None or \
+            taproot.parse_lock(lock)[0] != taproot.root(P, s2):
+        ctx.violation('root-identity', 'the lock built from a Script object '
+                      'whose byte code was replaced after an earlier '
+                      'commitment does not commit to its current byte code',
+                      dict(case, kind='root'))
+        return
+    got = run_auth([w, lock], {})
+    if (got is True) != v2:
+        ctx.violation('builder-scriptspend-verdict', 'script spend of a '
+                      'Script object whose byte code was replaced after an '
+                      'earlier commitment', case, v2, repr(got)[:60])
+    else:
+        ctx.mark_nontrivial(dg('mutated', lock))
+
+
 def judge_empty_commitment(ctx, rng, j):
     """a lock committing to the EMPTY script: the pair (b'', P) recomputes to
     the root, but an empty script cannot be evaluated, so no witness opens the
@@ -503,6 +543,8 @@ def run_shard(spec, ctx):
                 judge_empty_commitment(ctx, ctx.rng(('empty', j)), j)
             if j % 16 == 7:
                 judge_mixed_order_key(ctx, ctx.rng(('mixed', j)), j)
+            if j % 16 == 11:
+                judge_mutated_script(ctx, ctx.rng(('mutated', j)), j)
         ctx.count('monitor.dispatches', Tr.total)
     finally:
         remove_tracer(saved)
